@@ -410,6 +410,9 @@ func (s *sentence) walk(t *Tape, n *specNode, ds *DeclSet) {
 		case nArgRef:
 			from := len(s.toks)
 			tok := valueFor(t, n.decl)
+			if tok == "w" && elemKind(n.decl.Kind) == KString && len(s.toks)%2 == 0 {
+				tok = "" // an empty string is a positional like any other
+			}
 			if strings.HasPrefix(tok, "-") && !s.afterDD {
 				tok = "0"
 			}
